@@ -300,6 +300,44 @@ func Check(c *Case, r *Result, variant string, or Oracles, fail func(what string
 			if st.Best >= 0 && st.Finalized >= 0 && !v.AncOrSelf(st.Finalized, st.Best) {
 				fail(fmt.Sprintf("class=best-not-under-finalized: best block %d does not descend from the last finalized block %d after event %d", st.Best, st.Finalized, i))
 			}
+			// a checkpoint is justified / finalized on the strength of a REAL supermajority (more than 2n/3 verifying
+			// signatures of distinct validators on one link); judged until the first restart (afterwards unverified
+			// header signatures are counted: property C17's known finding)
+			if !restarted {
+				realMajority := func(cd *CkDump, from int) bool {
+					for _, l := range cd.Links {
+						valid := 0
+						for _, sl := range l.Slots {
+							if sl.OK && sl.Slot < n {
+								valid++
+							}
+						}
+						if 3*valid > 2*n && (from < 0 || l.Source == from) {
+							return true
+						}
+					}
+					return false
+				}
+				for k := range st.Cks {
+					cd := &st.Cks[k]
+					was := status(prev, cd.Label)
+					if cd.Label != 0 && (cd.Status == "justified" || cd.Status == "finalized") && was != "justified" && was != "finalized" && !realMajority(cd, -1) {
+						fail(fmt.Sprintf("class=justified-without-real-supermajority: checkpoint %d became %s at event %d and no sup link to it has more than 2n/3 verifying signatures of distinct validators (n = %d)", cd.Label, cd.Status, i, n))
+					}
+					if cd.Status == "finalized" && was != "finalized" {
+						found := false
+						for j := range st.Cks {
+							ch := &st.Cks[j]
+							if ch.Label > 0 && v.CkParent(ch.Label) == cd.Label && (ch.Status == "justified" || ch.Status == "finalized") && realMajority(ch, cd.Label) {
+								found = true
+							}
+						}
+						if !found {
+							fail(fmt.Sprintf("class=finalized-without-real-supermajority: checkpoint %d became finalized at event %d and no direct child is justified through a link from it with more than 2n/3 verifying signatures (n = %d)", cd.Label, i, n))
+						}
+					}
+				}
+			}
 			var fins []int
 			for _, cd := range st.Cks {
 				if cd.Status == "finalized" {
